@@ -7,7 +7,7 @@ from refgen import *
 
 PV_RE = re.compile(r'^<<"PV", \{(.*?)\}, "(.*?)", (\d+), "(.*?)">>$')
 ADDR = {"s1": ["10.1.0.5", "10.1.255.254", "2001:db8:1::7", "::ffff:10.1.3.4"], "s2": ["10.2.0.9"]}
-USERS = ["alice", "bob", "carol", "dave", "erin", "frank", "gina", "hank", "ivan", "judy", "nobody", ""]
+USERS = ["alice", "bob", "carol", "dave", "erin", "frank", "gina", "hank", "ivan", "judy", "mona", "nick", "nobody", ""]
 
 
 def pw_class(rng, cfg, scope, name, tag):
@@ -114,7 +114,7 @@ def rand_text(rng, n, cls="plain"):
 
 
 def acct_script(rng, cfg, scope, tag):
-    name = rng.choice(["alice", "alice", "bob", "carol", "frank", "erin", "kate", "kate", "liam", "nobody", ""])
+    name = rng.choice(["alice", "alice", "bob", "carol", "frank", "erin", "kate", "kate", "liam", "mona", "nick", "nobody", ""])
     flags = rng.choice([2, 4, 8, 10, 2, 4, 0, 6, 12, 14, 1, 255])
     cls = rng.choice(["plain", "plain", "pct", "quote", "ctl", "html"])
     nargs = rng.choice([0, 1, 2, 3, 5, 40, 255])
